@@ -179,8 +179,18 @@ def run(ctx):
                        'HONEST NOTE: pure enumeration of order choices through the executor, no solver query']
     ctx.outside_claim = ['three or more sites reordered at once', 'methods outside the shipped test files', 'nondeterminism inside C extensions']
     ctx.level_note = 'enumeration through the symbolic executor'
-    ctx.diff_unhooked(sys.modules[__name__], [dict(file='TestActivity.apk', prefix='Ltests/androguard/TestIfs;'),
-                                              dict(file='TestActivity.apk', prefix='Ltests/androguard/TestLoops;')])
+    bad = ctx.diff_unhooked(sys.modules[__name__], [dict(file='TestActivity.apk', prefix='Ltests/androguard/TestIfs;'),
+                                                    dict(file='TestActivity.apk', prefix='Ltests/androguard/TestLoops;')], collect=True)
+    # two runs of the decompiler (this process with ordered sets, a fresh process with real sets) print different source:
+    # either the hook is wrong or the output depends on set order / layout - the replay (fresh processes with different
+    # hash seeds and layouts) decides; a method that does not vary there is reported as a harness error as usual
+    for c, mine, theirs in bad:
+        for k in sorted(set(mine) | set(theirs)):
+            if mine.get(k) != theirs.get(k):
+                cn, rest = k.split('->', 1)
+                mn, desc = rest[:rest.index('(')], rest[rest.index('('):]
+                ctx.concrete_violation(dict(file=c['file'], cls=cn, method=mn, desc=desc, orders={}, differential=True),
+                                       label='%s %s' % (c['file'], k), what='two runs of the decompiler print different source for this method')
     ctx.pmap(job, jobs)
 
 
